@@ -66,7 +66,9 @@ Reset ==
   /\ lpc' = [k \in Lookers |-> "idle"] /\ lgot' = [k \in Lookers |-> None] /\ nlook' = [k \in Lookers |-> 0]
   /\ seen' = [p \in Procs |-> None] /\ stale' = FALSE /\ dev' = {}
 
-TNext == \/ Reset \/ End \/ SkipInternal
+\* drain() on some actor of the run: at this abstraction (statuses below Stopping are one) it changes nothing
+DrainEv == IsA("obs.drain") /\ Same /\ Adv
+TNext == \/ Reset \/ End \/ SkipInternal \/ DrainEv
          \/ \E s \in Spawners : SpawnEv(s) \/ ExitEv(s)
          \/ \E p \in Proxies : ProxyEv(p) \/ ExitEv(p)
          \/ \E k \in Lookers : LookEv(k)
